@@ -33,8 +33,24 @@ TABLES = [
 ]
 
 
+# tables with a string column, built from a DataFrame: their in-memory size (deep, ~2.5 kB / 2.8 kB) is about twice the
+# size of their file (~1.3 kB): under SMALL_LIMIT the file fits the cache limit, the loaded frame does not
+STR_TABLES = [
+    ('S0', {'a': list(range(40)), 's': ['ab'] * 40}, {i: (i, 'ab') for i in range(40)}),
+    ('S1', {'a': list(range(45)), 's': ['cd'] * 45}, {i: (i, 'cd') for i in range(45)}),
+]
+SMALL_LIMIT = 2000
+# under the small limit: key "t" holds string tables, key "u/v" small numeric ones (one schema per key)
+SMALL_SETS = [('t', 'S0'), ('t', 'S1'), ('u/v', 'T0'), ('u/v', 'T1')]
+ALL_TABLES = {n: rows for n, _, rows in TABLES}
+ALL_TABLES.update({n: rows for n, _, rows in STR_TABLES})
+LIMIT = [None]                 # cache limit of the stores of the current search (None = default)
+
+
 class Env:
     def __init__(self):
+        import pandas as pd
+        self.limit = LIMIT[0]
         self.fs = MemFS()
         self.fs.mkdirs(ROOT)
         fc.open = self.fs.open
@@ -43,13 +59,16 @@ class Env:
         self.kl('.py("klongpy.db")')
         for name, prog, rows in TABLES:
             self.kl(prog)
+        for name, cols, rows in STR_TABLES:
+            self.kl['df' + name] = pd.DataFrame(cols)
+            self.kl('%s::.table(df%s)' % (name, name))
         self.stores = []
         self.open_store()
 
     def open_store(self):
         if self.stores:
             self.stores[-1].cache.executor.shutdown(wait=True)
-        st = TableStorage(ROOT)
+        st = TableStorage(ROOT) if self.limit is None else TableStorage(ROOT, max_memory=self.limit)
         self.stores.append(st)
         self.kl['ts'] = st
         self.st = st
@@ -65,7 +84,7 @@ class Env:
 
 def optext(op):
     if op[0] == 'set':
-        return 'ts,[;"%s";%s]' % (op[1], TABLES[op[2]][0])
+        return 'ts,[;"%s";%s]' % (op[1], op[2] if isinstance(op[2], str) else TABLES[op[2]][0])
     if op[0] == 'get':
         return 'ts?"%s"' % op[1]
     if op[0] == 'unload':
@@ -83,7 +102,7 @@ def observe(v):
         for idx, row in zip(df.index.tolist(), df.values.tolist()):
             if isinstance(idx, tuple) and len(idx) == 1:
                 idx = idx[0]
-            out.append((int(idx), tuple(int(x) for x in row)))
+            out.append((int(idx), tuple(x if isinstance(x, str) else int(x) for x in row)))
         return ('table', tuple(out))
     return cn(v)
 
@@ -114,7 +133,7 @@ def do(env, op):
 def apply_model(model, op):
     if op[0] == 'set':
         cur = dict(model.get(op[1], ()))
-        for idx, row in TABLES[op[2]][2].items():
+        for idx, row in (ALL_TABLES[op[2]] if isinstance(op[2], str) else TABLES[op[2]][2]).items():
             cur.setdefault(idx, row)
         model[op[1]] = tuple(sorted(cur.items()))
 
@@ -157,6 +176,11 @@ def build(hist):
 
 
 def all_ops():
+    if LIMIT[0] is not None:
+        ops = [('set', k, n) for k, n in SMALL_SETS]
+        for k in KEYS:
+            ops += [('get', k), ('unload', k)]
+        return ops + [('getmod', 't'), ('get', 'zz'), ('reopen',)]
     ops = []
     for k in KEYS:
         for ti in range(len(TABLES)):
@@ -195,15 +219,17 @@ def expand(hist):
             bad.extend(invariants(env))
             out['transitions'] += 1
             c = env.st.cache
-            key = (tuple(sorted(model.items())), tuple(sorted(c.file_futures.keys())),
+            key = (LIMIT[0], tuple(sorted(model.items())), tuple(sorted(c.file_futures.keys())),
                    tuple(fn for _, fn in sorted(c.file_access_times)))
             out['outcomes'].add(hash((key, got)) & 0xffffffff)
             hist_s = [optext(h) for h in hist] + [optext(op)]
+            if LIMIT[0] is not None:
+                hist_s[0] = '[cache limit %d bytes] ' % LIMIT[0] + hist_s[0]
             for cls, observed, exp_s in bad:
                 out['violations'].append(dict(key='tables | %s @%s' % (' ; '.join(hist_s), cls), observed=observed,
                                               expected=exp_s, group='table-' + cls,
                                               case={'kind': 'table', 'history': [list(h) for h in hist] + [list(op)],
-                                                    'text': hist_s}))
+                                                    'text': hist_s, 'limit': LIMIT[0]}))
             out['succ'].append((op, None if bad else key))
         finally:
             env.close()
@@ -224,16 +250,31 @@ def _show(o):
 
 
 def run_tables(cfg, rep):
+    LIMIT[0] = None
     t = bfs.search(expand, cfg, cfg.pick(2, 3), max_states=200000)
     rep.extend_violations(t.get('violations', []))
-    return {'states': t['states'], 'transitions': t['transitions'], 'outcomes': len(t.get('outcomes', ())),
-            'info': {'layers': t['layers'], 'max_depth': t['max_depth'], 'capped': t['capped'],
+    # a cache limit that the files of the string tables fit and their loaded frames do not
+
+    LIMIT[0] = SMALL_LIMIT
+    try:
+        t2 = bfs.search(expand, cfg, cfg.pick(2, 3), max_states=200000)
+    finally:
+        LIMIT[0] = None
+    rep.extend_violations(t2.get('violations', []))
+    return {'states': t['states'] + t2['states'], 'transitions': t['transitions'] + t2['transitions'],
+            'outcomes': len(t.get('outcomes', ())) + len(t2.get('outcomes', ())),
+            'info': {'layers': t['layers'], 'max_depth': t['max_depth'], 'capped': t['capped'] or t2['capped'],
+                     'small_limit_search': {'limit_bytes': SMALL_LIMIT, 'layers': t2['layers'], 'max_depth': t2['max_depth'],
+                                            'sets': ['ts,[;"%s";%s]' % kn for kn in SMALL_SETS],
+                                            'string_tables': {n: '%d rows, columns a (int), s (2-character strings)' % len(r)
+                                                              for n, _, r in STR_TABLES}},
                      'tables': [p for _, p, _ in TABLES]},
             'sample': ['ts,"t",,T0', 'ts,"t",,T1', 'ts?"t"']}
 
 
 def replay(case):
     logging.disable(logging.CRITICAL)
+    LIMIT[0] = case.get('limit')
     env = Env()
     try:
         for op in case['history']:
